@@ -72,6 +72,9 @@ func PC02Align(args []string) string {
 	if why := ValidImage(res.Out); why != "" {
 		return "FAIL invalid-output " + why
 	}
+	if why := FFS3Rule(res.Out); why != "" {
+		return "FAIL invalid-output " + why
+	}
 	// the aligned file is still there
 	if !strings.Contains(AbsVolume(res.Out), fmt.Sprintf("F(%x,", aligned.GUID[:])) {
 		return "FAIL aligned-file-lost"
@@ -106,6 +109,9 @@ func PC03Big(args []string) string {
 		return fmt.Sprintf("FAIL size-changed %x -> %x", len(img), len(res.Out))
 	}
 	if why := ValidImage(res.Out); why != "" {
+		return "FAIL invalid-output " + why
+	}
+	if why := FFS3Rule(res.Out); why != "" {
 		return "FAIL invalid-output " + why
 	}
 	want := "V[" + AbsFile(small.GUID[:], small.Type, 0, small.Body, 24) + AbsFile(trail.GUID[:], trail.Type, 0, trail.Body, 24) + "]"
@@ -193,6 +199,9 @@ func PC02Shrink(args []string) string {
 		return fmt.Sprintf("FAIL size-changed %x -> %x", len(img), len(res.Out))
 	}
 	if why := ValidImage(res.Out); why != "" {
+		return "FAIL invalid-output " + why
+	}
+	if why := FFS3Rule(res.Out); why != "" {
 		return "FAIL invalid-output " + why
 	}
 	// the driver is there, in the form its size asks for, with the expected PE32 section
@@ -300,6 +309,9 @@ func PC02Exact(args []string) string {
 	if why := ValidImage(res.Out); why != "" {
 		return "FAIL invalid-output " + why
 	}
+	if why := FFS3Rule(res.Out); why != "" {
+		return "FAIL invalid-output " + why
+	}
 	found := false
 	for key, off := range FileOffsets(res.Out) {
 		if !strings.HasPrefix(key, fmt.Sprintf("0/%x/", drv.GUID[:])) {
@@ -337,6 +349,116 @@ func PC02Exact(args []string) string {
 	}
 	if !found {
 		return "FAIL driver-lost"
+	}
+	return "ok"
+}
+
+// p_c02_ffs3 <seed>: an FFSv2 volume of ~20 MiB holding small files, a driver and a carrier file
+// with a nested FFSv2 volume; one edit makes a file with sections reach 16 MiB (replace_pe32 of the
+// driver, or the insert of such a file), in front of the carrier or - the mirrored order - behind
+// it. The volume now holds a file in the large form, so it has to be saved with the FFSv3 GUID
+// whatever comes after that file (Assemble's flag is per volume: the nested volume starts clean and
+// hands the enclosing volume's flag back); the nested volume holds no large file and keeps FFSv2.
+// Same size, valid for the independent reader (checksums, sizes, layout), FFS3Rule on every volume.
+func PC02FFS3(args []string) string {
+	r := NewRng(UnN(args[0]))
+	bigBefore := r.Chance(2, 3)
+	mkSmall := func(i int) *uefigen.File {
+		return &uefigen.File{GUID: poolGUID(i), Type: 0xC0, State: 0xF8, Body: r.Bytes(r.Pick(3, 40, 200))}
+	}
+	inner := &uefigen.Vol{FSGUID: uefigen.FFS2, Attrs: 0x800 | 0x4FEFF, Revision: 2, BlockSize: 64,
+		Files: []*uefigen.File{
+			{GUID: poolGUID(5), Type: 7, State: 0xF8, Secs: []*uefigen.Sec{{Type: 0x10, Body: []byte("MZin")}, {Type: 0x15, Body: ucs2("Inner")}}},
+			mkSmall(6)}, FreeSpace: r.Pick(0, 64, 300)}
+	carrier := &uefigen.File{GUID: poolGUID(3), Type: byte(r.Pick(11, 11, 7)), State: 0xF8,
+		Secs: []*uefigen.Sec{{Type: 0x17, Vol: inner}}}
+	if r.Bool() {
+		carrier.Secs = append([]*uefigen.Sec{{Type: 0x19, Body: r.Bytes(5)}}, carrier.Secs...)
+	}
+	drv := &uefigen.File{GUID: poolGUID(2), Type: 7, State: 0xF8,
+		Secs: []*uefigen.Sec{{Type: 0x10, Body: append([]byte("MZ"), r.Bytes(20)...)}, {Type: 0x15, Body: ucs2("Grows")}}}
+	if r.Bool() {
+		drv.Attr |= 0x40
+	}
+	front := mkSmall(1)
+	var files []*uefigen.File
+	if bigBefore {
+		files = []*uefigen.File{front, drv, carrier}
+	} else {
+		files = []*uefigen.File{front, carrier, drv}
+	}
+	if r.Bool() {
+		files = append(files, mkSmall(4))
+	}
+	v := &uefigen.Vol{FSGUID: uefigen.FFS2, Attrs: 0x800 | 0x4FEFF, Revision: 2, BlockSize: 4096,
+		Files: files, FreeSpace: 0x1100000 + 4096*r.Pick(0, 3, 700)}
+	img, _ := uefigen.EmitVol(v)
+	if why := ValidImage(img); why != "" {
+		return "harness-error generated-image-invalid " + why
+	}
+	big := make([]byte, 0x1000000+r.Pick(0, 1, 9, 4097))
+	copy(big, "MZ")
+	for i := 2; i < len(big); i += 4093 {
+		big[i] = byte(r.U64())
+	}
+	var op EOp
+	if r.Chance(1, 2) {
+		op = EOp{Kind: "pe", Target: GuidText(drv.GUID), Data: big}
+	} else {
+		nf := &uefigen.File{GUID: poolGUID(4 + 3), Type: 9, State: 0xF8, BigSecs: true,
+			Secs: []*uefigen.Sec{{Type: 0x10, Body: big}}}
+		data := EmitFile(nf)
+		if data == nil {
+			return "harness-error big-file-not-serialised"
+		}
+		switch {
+		case bigBefore && r.Bool():
+			op = EOp{Kind: "ins", It: "front", Target: GuidText(front.GUID), Data: data}
+		case bigBefore:
+			op = EOp{Kind: "ins", It: []string{"after", "before"}[r.Intn(2)], Target: GuidText(drv.GUID), Data: data}
+		default:
+			op = EOp{Kind: "ins", It: []string{"after", "end"}[r.Intn(2)], Target: GuidText(carrier.GUID), Data: data}
+		}
+	}
+	res := RunEdit(img, []EOp{op})
+	if strings.HasPrefix(res.Stage, "harness-error") {
+		return res.Stage
+	}
+	if res.Stage != "ok" {
+		return "FAIL growing-a-file-to-16-MiB-next-to-a-nested-volume-failed " + res.Stage
+	}
+	if len(res.Out) != len(img) {
+		return fmt.Sprintf("FAIL size-changed %x -> %x", len(img), len(res.Out))
+	}
+	if why := ValidImage(res.Out); why != "" {
+		return "FAIL invalid-output " + why
+	}
+	if why := FFS3Rule(res.Out); why != "" {
+		return "FAIL invalid-output " + why
+	}
+	// the outer volume really holds a large file now and says FFSv3; the nested one still says FFSv2
+	if string(res.Out[16:32]) != string(ffs3[:]) {
+		return "FAIL outer-volume-not-FFSv3"
+	}
+	hasLarge := false
+	for _, off := range FileOffsets(res.Out) {
+		if res.Out[off+19]&1 != 0 {
+			hasLarge = true
+		}
+	}
+	if !hasLarge {
+		return "FAIL no-large-file-in-the-output"
+	}
+	abs := AbsVolume(res.Out)
+	if !strings.Contains(abs, "S(17,V[") || !strings.Contains(abs, fmt.Sprintf("F(%x,", poolGUID(5))) {
+		return "FAIL nested-volume-lost " + clip(abs)
+	}
+	k := strings.Index(string(res.Out[64:]), "_FVH")
+	if k < 0 {
+		return "FAIL nested-volume-signature-lost"
+	}
+	if nv := 64 + k - 40; string(res.Out[nv+16:nv+32]) != string(ffs2[:]) {
+		return "FAIL nested-volume-without-large-files-became-FFSv3"
 	}
 	return "ok"
 }
